@@ -149,6 +149,13 @@ class RequestManager(BaseModel):
                 return RequestResponse(status="failure", data={"reason": request_type.validator.fail_message})
             return request_type.func(request_options, context)
         except (IndexError, ValueError) as e:
+            # (only what is raised while the handler READS its parameters - in the handler itself or one call below it, such
+            # as an address constructor; anything raised deeper comes from the simulation and is not this request's fault)
+            depth, tb = 0, e.__traceback__
+            while tb is not None:
+                depth, tb = depth + 1, tb.tb_next
+            if depth > 3:
+                raise
             msg = f"Request {request} could not be processed because its parameters are missing or malformed ({e})"
             _LOGGER.debug(msg)
             return RequestResponse(status="failure", data={"reason": msg})
